@@ -188,7 +188,7 @@ func c19StreamsT(seed int64, thorough bool) []*Stream {
 		}
 		ss = append(ss, BuildStream("hostile-contents", lists, roundRobin(lists), nil))
 	}
-	ss = append(ss, VersionToggleStream(seed), PIDClassesStream(seed), ContinuousSectionsStream(seed))
+	ss = append(ss, VersionToggleStream(seed), PIDClassesStream(seed), ContinuousSectionsStream(seed), NextIndicatorStream(seed))
 	{ // a longer multiplex: PAT, PMT, two PES PIDs with several units, a 2-packet SDT (13 packets)
 		ccs := []uint8{0, 0, 4, 9, 15}
 		pat, pmt, sdt := modelPAT(1, 0x1000), modelPMT(1, 0x100, 2), modelSDT(7)
@@ -964,6 +964,21 @@ func VersionToggleStream(seed int64) *Stream {
 		ps = append(ps, Packetize(PESUnit(0x100, 0xe0, pesPayload(80+k, 100, seed), uint64(k+1), false), nil, &ce, false)...)
 	}
 	return &Stream{Name: "version-toggle", Pkts: ps, Bytes: EncodePkts(ps)}
+}
+
+// NextIndicatorStream: the first PAT and PMT occurrences carry current_next_indicator 0 (tables announced ahead of
+// time), later ones 1; the PAT precedes its PMTs throughout, and the PMT PID is the same in both.
+func NextIndicatorStream(seed int64) *Stream {
+	var ps []*ref.Pkt
+	c0, c1, ce := uint8(0), uint8(0), uint8(0)
+	pat, pmt := modelPAT(0, 0x10, 1, 0x1000), modelPMT(1, 0x100, 2)
+	for k := 0; k < 4; k++ {
+		cni := k >= 2
+		ps = append(ps, Packetize(PSIUnit(0, 0, [][]byte{SecPAT(pat, ref.SecHdr{CNI: cni, Version: 5})}, nil), nil, &c0, true)...)
+		ps = append(ps, Packetize(PSIUnit(0x1000, 0, [][]byte{SecPMT(pmt, ref.SecHdr{CNI: cni, Version: 5})}, nil), nil, &c1, true)...)
+		ps = append(ps, Packetize(PESUnit(0x100, 0xe0, pesPayload(90+k, 60, seed), uint64(k+1), false), nil, &ce, false)...)
+	}
+	return &Stream{Name: "next-then-current-tables", Pkts: ps, Bytes: EncodePkts(ps)}
 }
 
 // c20Answers drains a Demuxer through one API and returns every answer in order: the canonical dump of a
